@@ -516,7 +516,14 @@ def c09(ck):
                "cleared variants) must pass rpm's header-loading rules for lead, signature header (incl. padding) and "
                "main header as transcribed in spec/HeaderFormat.tla; the same rules accept all repository assets "
                "(self-test against an over-strict transcription); non-trivial = distinct layouts")
-    # self-test: rpmbuild output must satisfy the transcribed rules too (guards against an over-strict HdrChk)
+    # payload part: the archive of every emitted package against the cpio model (order, names, sizes, modes,
+    # alignment, trailer, compression magic)
+    files = run_files(ck, binary, ("C09:",), ["--n", 300 if thorough else 40, "--stripped", 20 if thorough else 4], gen=False, tag="c09files")
+    emf = [e for e in files if e.get("emitted")]
+    ck.evaluations += len(emf)
+    ck.nontrivial += len({(e["compressor"], len(e["ents"]), tuple(x.get("size") for x in e["ents"])) for e in emf})
+    ck.extra["archives_checked"] = len(emf)
+    ck.extra["compressors"] = sorted({e["compressor"] for e in emf})
     ck.finish()
 
 
@@ -916,4 +923,138 @@ def c11(ck):
     ck.rule = ("seeded configurations with 2..6 distinct non-root users and groups, file mtimes on both sides of the source "
                "date, unsigned / Ed25519 / RSA-4096 signed, each built 3x in-process and in 3 freshly spawned processes; "
                "non-trivial = distinct configurations")
+    ck.finish()
+
+
+# ------------------------------------------------------------------------------------ C07 / C08 / C09 payload
+TRACE_MODULE["C07"] = "Trace_C07"
+TRACE_MODULE["C08"] = "Trace_C07"
+
+
+def run_files(ck, binary, own, extra_args, gen=True, tag="c07"):
+    """Run the `c07` scenario (payload iteration / archive structure / file digests) and validate with
+    Trace_C07; rejects labelled with one of the `own` prefixes belong to the calling check."""
+    args = ["c07", "--out", ck.scratch / f"{tag}.ndjson", "--seed", ck.seed, "--tier", ck.tier] + extra_args
+    if gen:
+        cases = ck.scratch / "cpio_cases.ndjson"
+        ck.add_tlc(vlib.gen_cases("Gen_Cpio", "Gen_Cpio_thorough.cfg" if ck.tier == "thorough" else "Gen_Cpio_quick.cfg", ck.scratch, cases, timeout=1800))
+        args += ["--cases", cases]
+    tr = ck.scratch / f"{tag}.ndjson"
+    vlib.run_harness(binary, args, timeout=6000)
+    events = read_ndjson(tr)
+    panics = [e for e in events if e["event"] == "Panic"]
+    by_id = {e["id"]: e for e in events}
+    nid = max(by_id) + 1
+    canaries = {}
+    def add(label, pred, mut):
+        nonlocal nid
+        c = _first(events, pred, label)
+        mut(c)
+        c["id"] = nid
+        canaries[nid] = label
+        nid += 1
+        return c
+    ok_iter = lambda e: e["event"] == "Files" and "ok" in e.get("iter", {}) and len(e["iter"]["ok"]) >= 2
+    extra = []
+    if any(o.startswith("C07") for o in own):
+        extra.append(add("C07:", ok_iter, lambda c: c["iter"]["ok"][0].__setitem__("content_sha", "0" * 64)))
+        def swap(c):
+            a, b = c["iter"]["ok"][0], c["iter"]["ok"][1]
+            a["path"], b["path"] = b["path"], a["path"]
+        extra.append(add("C07:", lambda e: ok_iter(e) and e["iter"]["ok"][0]["path"] != e["iter"]["ok"][1]["path"], swap))
+        extra.append(add("C07:", ok_iter, lambda c: c["iter"]["ok"].pop()))
+    if any(o.startswith("C09") for o in own):
+        extra.append(add("C09:", lambda e: ok_iter(e) and e.get("emitted"), lambda c: c["ents"][1].__setitem__("hdr_at", c["ents"][1]["hdr_at"] + 2)))
+        extra.append(add("C09:", lambda e: ok_iter(e) and e.get("emitted") and e["compressor"] == "gzip", lambda c: c.__setitem__("magic", [80, 75, 3, 4, 0, 0])))
+        extra.append(add("C09:", lambda e: ok_iter(e) and e.get("emitted"), lambda c: c["files"][0].__setitem__("mode", c["files"][0]["mode"] ^ 1)))
+    if any(o.startswith("C08") for o in own):
+        extra.append(add("C08:", lambda e: ok_iter(e) and e.get("emitted"), lambda c: c["files"][0].__setitem__("digest", "f" * 64)))
+    for c in extra:
+        c.pop("archive_bytes", None)
+    events = extra + events
+    write_ndjson(tr, events)
+    v = vlib.validate_trace("Trace_C07", "Trace_C07.cfg", ck.scratch, tr, shards=12, timeout=3000)
+    ck.add_validation(v)
+    rejected = {r["id"]: r for r in v["rejects"]}
+    for cid, label in canaries.items():
+        r = rejected.get(cid)
+        if r is None or not any(w.startswith(label[:4]) for w in r["why"]):
+            raise ToolError(f"canary for {label} was accepted by Trace_C07 ({r})")
+    ck.canaries += len(canaries)
+    other = {}
+    for r in v["rejects"]:
+        if r["id"] in canaries:
+            continue
+        ev = by_id.get(r["id"])
+        if ev is None:
+            continue
+        for w in r["why"]:
+            if w.startswith("harness:"):
+                raise ToolError(f"the harness's archive scanner disagrees with the specification's parse on {ev.get('origin')}")
+            if any(w.startswith(o) for o in own):
+                small = {k: x for k, x in ev.items() if k not in ("archive_bytes",)}
+                ck.violation(f"{w}:{ev.get('origin')}", w, small)
+            else:
+                other[w[:3]] = other.get(w[:3], 0) + 1
+    if other:
+        log(f"  rejects belonging to other properties: {other}")
+    ck.extra["panics_seen_belonging_to_C04"] = ck.extra.get("panics_seen_belonging_to_C04", 0) + len(panics)
+    return [e for e in events if e["id"] in by_id and e["event"] == "Files"]
+
+
+@prop("C07")
+def c07(ck):
+    binary = vlib.build_harness()
+    ck.add_tlc(vlib.mc("MC_Cpio", "MC_Cpio.cfg", ck.scratch, workers=8, timeout=1800))
+    files = run_files(ck, binary, ("C07:",), ["--n", 300 if ck.tier == "thorough" else 40, "--stripped", 30 if ck.tier == "thorough" else 6])
+    ck.evaluations = len(files)
+    ck.nontrivial = len({(origin_kind(e), len(e["files"]), len(e["ents"]), e["compressor"], tuple(x.get("size") for x in e["ents"])) for e in files})
+    kinds = {}
+    for e in files:
+        kinds[origin_kind(e)] = kinds.get(origin_kind(e), 0) + 1
+    ck.extra.update(packages=kinds, items_yielded=sum(len(e["iter"].get("ok", [])) for e in files),
+                    stripped_format_packages=sum(1 for e in files if any(x["kind"] == "stripped" for x in e["ents"])),
+                    scanner_validated_against_spec_parse=sum(1 for e in files if "archive_bytes" in e))
+    s = next(e for e in files if origin_kind(e) == "gen" and len(e["ents"]) > 2)
+    ck.samples.append({k: s[k] for k in ("origin", "case", "files", "ents", "iter")})
+    ck.rule = ("Package::files() on: TLC-enumerated foreign-style packages (1..3 files, every size 0..5, names covering every "
+               "header-padding residue, every subset omitted from the archive, every archive order, newc and stripped "
+               "entries); the repository assets; packages built with every compression type and level family and sizes 0, "
+               "1..8, 4095..4097, 64 KiB, MiB-range (compressible and not), a 3000-byte name; random configurations; the "
+               "large-file format through the verification hook; non-trivial = distinct archive shapes")
+    ck.finish()
+
+
+@prop("C08")
+def c08(ck):
+    binary = vlib.build_harness()
+    thorough = ck.tier == "thorough"
+    # (1) header SHA-256, payload digest, alternate (uncompressed) payload digest of built / signed / cleared packages
+    events = run_pkg(ck, binary, ["--families", "built", "--n", 200 if thorough else 45, "--gets", "0"], own=("C08:",), tag="c08pkg")
+    with_dig = [e for e in events if "dig" in e and e.get("emitted")]
+    # (2) per-file digests and large / incompressible payloads for every codec
+    files = run_files(ck, binary, ("C08:",), ["--n", 200 if thorough else 30, "--stripped", 10 if thorough else 3], gen=False, tag="c08files")
+    # (3) the hashing writer in front of short-accepting sinks
+    tr = ck.scratch / "c08hash.ndjson"
+    vlib.run_harness(binary, ["c14", "--out", tr, "--seed", ck.seed, "--families", "hash"])
+    hv = read_ndjson(tr)
+    hid = {e["id"]: e for e in hv}
+    c = copy.deepcopy(hv[0]); c["id"] = max(hid) + 1; c["hashed"] = "0" * 64
+    write_ndjson(tr, [c] + hv)
+    v = vlib.validate_trace("Trace_C14", "Trace_C14.cfg", ck.scratch, tr, shards=1)
+    ck.add_validation(v)
+    rej = ck.expect_canary(v["rejects"], [c["id"]])
+    add_rejects(ck, rej, hid, lambda e, r: f"HashRun:{e.get('mode')}:{e.get('split')}" if e else "?")
+    ck.evaluations = len(with_dig) * 3 + sum(len(e["files"]) for e in files if e.get("emitted")) + len(hv)
+    ck.nontrivial = len({e["dig"]["payload"]["calc"] for e in with_dig}) + len({f["digest"] for e in files for f in e["files"]}) + len({(e["mode"], e["split"]) for e in hv})
+    ck.extra.update(packages_with_three_digests=len(with_dig), file_digests=sum(len(e["files"]) for e in files if e.get("emitted")),
+                    hashing_writer_scripts=len(hv), compressors=sorted({e["dig"]["compressor"] for e in with_dig}))
+    if with_dig:
+        ck.samples.append({"origin": with_dig[0]["origin"], "dig": with_dig[0]["dig"]})
+    ck.samples.append(hv[0])
+    ck.rule = ("every package built / signed / cleared in the run: header SHA-256, payload SHA-256 and the digest of the "
+               "uncompressed archive recomputed by the harness (own range finding, own decompression, sha2) over exactly the "
+               "ranges the specification derives; every file digest against the archive entry's content; 1 MiB-range "
+               "compressible and incompressible files for every codec; the public Sha256Writer in front of scripted "
+               "short-accepting sinks; non-trivial = distinct digests compared")
     ck.finish()
